@@ -26,6 +26,9 @@ def nontrivial(req, obs):
 
 
 def finding_key(req, obs, detail):
+    if req.startswith("C02.gen\t") and not obs and not detail:
+        # probe of vlib.shrink: failures of the semantic stream are keyed by their input, so a smaller failing input is welcome
+        return req
     d = (detail or "")[5:]
     d = re.sub(r":\d+:", ":", d)          # panic line numbers move with unrelated edits
     d = re.sub(r"panic \S*?((?:msl|ir|typer|parser|formatter|preprocess|text|ast|hlsl)/src/)", r"panic \1", d)
@@ -47,7 +50,28 @@ def _show(f, gs, fs, entry):
     return "\t".join([f[0], ";".join(gs) or "-", ";".join(":".join(x) for x in fs) or "-", entry])
 
 
+def _shrink_gen(req):
+    f = req.split("\t")
+    if len(f) < 4:
+        return
+    src, fn, vecs = f[1], f[2], f[3]
+    # one argument vector
+    vs = vecs.split(";")
+    if len(vs) > 1:
+        for v in vs:
+            yield "\t".join(["C02.gen", src, fn, v, "-", "-"])
+    # drop one source line (statements of this generator are one per line; a candidate that no longer compiles is a SKIP)
+    lines = src.split("\\n")
+    for k in range(len(lines)):
+        if lines[k].strip() in ("", "{", "}") or lines[k].lstrip().startswith(("static ", "return ")) or "(" in lines[k] and ")" in lines[k] and lines[k].rstrip().endswith(")") and not lines[k].startswith(" "):
+            continue
+        yield "\t".join(["C02.gen", "\\n".join(lines[:k] + lines[k + 1:]), fn, vecs, "-", "-"])
+
+
 def shrink(req):
+    if req.startswith("C02.gen\t"):
+        yield from _shrink_gen(req)
+        return
     if not req.startswith("C02.thread\t") or len(req.split("\t")) != 4:
         return
     f, gs, fs = _parse(req)
@@ -97,6 +121,25 @@ def search(ctx):
     return out
 
 
+def custom(ctx):
+    """the standard run, plus a statistic: for how many programs of the semantic stream do the hypotheses of the
+    statement / program theorems (Spec/SemMslWT) hold"""
+    ctx.standard_run()
+    gen = sorted(r for r in ctx.distinct if r.startswith("C02.gen\t") and len(r.split("\t")) == 6 and r.split("\t")[4] != "-")
+    if gen:
+        from collections import Counter
+        ans = ctx.run_model(["C02.wt" + r[len("C02.gen"):] for r in gen])
+        ctx.extra["semantic_theorem_hypotheses_hold"] = dict(Counter(ans))
+        # consistency of the whole arrangement: where the oracle sees the real exporter differ from the IR, the hypotheses
+        # of the theorems must fail (the theorems say there is no difference where they hold)
+        status = dict(zip(gen, ans))
+        bad = [r for r, o, d in ctx.oracle_failures if status.get(r) == "wt" and "is undefined" not in d]
+        ctx.extra["oracle_differences_inside_theorem_hypotheses"] = len(bad)
+        if bad:
+            ctx.broken.append("the oracle reports a difference on a program that satisfies the hypotheses of gen_sem_*: "
+                              + bad[0].split("\t")[1][:200])
+
+
 SPEC = {
     "id": "C02",
     "gens": ["UsageTables", "MslGenTables"],
@@ -114,6 +157,7 @@ SPEC = {
     "finding_key": finding_key,
     "shrink": shrink,
     "search": search,
+    "custom": custom,
     "rule": "requests = (globals with storage/const/sampler/object class, functions with parameter modes and a list of "
             "mentions/calls each placed at one of 32 syntactic positions, entry point); rendered to RSSL, type checked, "
             "run through rssl_msl::verif_generate_ast and the public GlobalUsageAnalysis::calculate; first every "
